@@ -24,7 +24,7 @@ namespace OpenMEEG::maths {
         size_t length() const { return end()-start()+1; }
 
         bool contains(const size_t ind) const { return ind>=start() && ind<=end();               }
-        bool intersect(const Range& r)  const { return contains(r.start()) || contains(r.end()); }
+        bool intersect(const Range& r)  const { return contains(r.start()) || contains(r.end()) || r.contains(start()); }
 
         bool operator==(const Range& r) const { return start()==r.start() && end()==r.end();     }
         bool operator!=(const Range& r) const { return start()!=r.start() || end()!=r.end();     }
